@@ -491,6 +491,7 @@ func (a *Attacker) Attack(tr Targeter, p Pacer, du time.Duration, name string) <
 		}()
 
 		count := uint64(0)
+		var timer *time.Timer
 		for {
 			elapsed := time.Since(atk.began)
 			if du > 0 && elapsed > du {
@@ -502,7 +503,22 @@ func (a *Attacker) Attack(tr Targeter, p Pacer, du time.Duration, name string) <
 				return
 			}
 
-			time.Sleep(wait)
+			if wait > 0 {
+				// Wait, but not past a Stop: nothing else would end a
+				// stopped attack before the next hit is due, which at a
+				// low rate is a long time.
+				if timer == nil {
+					timer = time.NewTimer(wait)
+					defer timer.Stop()
+				} else {
+					timer.Reset(wait)
+				}
+				select {
+				case <-timer.C:
+				case <-a.stopch:
+					return
+				}
+			}
 
 			if workers < a.maxWorkers {
 				select {
